@@ -23,6 +23,8 @@ def main():
     except gen.GenError as e:
         print('GEN ERROR:', e)
         sys.exit(2)
+    for (n, msg) in u.lost:
+        print('LOST ANCHOR (function emitted as stub):', n, '->', msg)
     p = os.path.join(outdir, unit + ('_probe' if probe else '') + '.rs')
     open(p, 'w').write(u.text)
     r = verus.run_verus(p, rlimit=rl, threads=8)
